@@ -16499,7 +16499,9 @@ let tcp_event s =
      | [] -> Delivered ([], true)
      | rest :: _ ->
        let k = num_of ty N0 in
-       if (||) (N.eqb k (Npos (XI XH))) (N.eqb k (Npos (XO (XO (XO XH)))))
+       if (||)
+            ((||) (N.eqb k (Npos (XI XH))) (N.eqb k (Npos (XO (XO (XO XH))))))
+            (N.eqb k (Npos (XO (XO (XI XH)))))
        then Refused
        else Delivered ((seg_bytes rest),
               (negb
